@@ -17,6 +17,7 @@ CONSTANTS
   FIX_SCANWATCHED = TRUE
   FIX_RETRY = TRUE
   FIX_OVERFLOW = TRUE
+  LooseFilter = FALSE
   QMax = 99
   RECORD = FALSE
 INVARIANTS TypeOK Bounded WatchesOK
